@@ -64,6 +64,10 @@ class Prop(PropBase):
                     shape[rng.randrange(1, len(shape))] = rng.choice([0, 1, 3, 5])
                 else:
                     shape = [0]
+                if rng.random() < 0.3:
+                    shape = shape + [0]             # an extra, empty trailing axis
+                if rng.random() < 0.35:
+                    shape[0] = 0                    # ... also with no time samples at all: the sample shape is still empty
             else:
                 shape = [] if rng.random() < 0.3 else [rng.choice([0, 1, 4])] + good[1:]
             pref = [d for d in DTYPES if REQ0[cls] is None or d[0] == REQ0[cls][0]]
